@@ -578,7 +578,11 @@ func c14Eval(c *c14Case, modelRaw json.RawMessage, graph bool, reps int) ([]c14F
 		return fmt.Sprintf("C14:panic:%s:%s", c.Kind, shape)
 	}
 	if all.Class == "panic" || all.Class == "hang" {
-		out = append(out, c14Finding{Sig: panicSig(all), What: fmt.Sprintf("concatenation %ss (%s): %s", all.Class, via, all.Info), Impl: all})
+		var mdl any
+		if modelRaw != nil {
+			mdl = json.RawMessage(modelRaw)
+		}
+		out = append(out, c14Finding{Sig: panicSig(all), What: fmt.Sprintf("concatenation %ss (%s): %s", all.Class, via, all.Info), Model: mdl, Impl: all})
 	}
 	// determinism (Go map iteration order inside concatMaps / concatToolCalls)
 	for i := 0; i < reps; i++ {
@@ -611,6 +615,8 @@ func c14Eval(c *c14Case, modelRaw json.RawMessage, graph bool, reps int) ([]c14F
 				sig = fmt.Sprintf("C14:class-mismatch:%s:impl=%s:model=%s", c.Kind, all.Class, mc)
 				if mc == "panic" && f.nilVal {
 					sig = panicSig(all)
+				} else if f.nilVal {
+					sig += ":nil-extra-value"
 				}
 			}
 			out = append(out, c14Finding{Sig: sig, What: fmt.Sprintf("implementation and model disagree on %s (%s)", field, via), Model: json.RawMessage(modelRaw), Impl: all})
@@ -726,6 +732,41 @@ func c14Candidates(c *c14Case) []*c14Case {
 				if e(mm) {
 					n := clone()
 					n.Chunks[i] = c14Raw(mm)
+					out = append(out, n)
+				}
+			}
+		}
+	}
+	if c.Kind == "marr" {
+		for i, raw := range c.Chunks {
+			var ms []*c14Msg
+			if json.Unmarshal(raw, &ms) != nil {
+				continue
+			}
+			for j := range ms {
+				if ms[j] == nil {
+					continue
+				}
+				var cp []*c14Msg
+				json.Unmarshal(raw, &cp)
+				cp[j] = nil
+				n := clone()
+				n.Chunks[i] = c14Raw(cp)
+				out = append(out, n)
+				for _, ev := range c14ValEdits(ms[j].Extra) {
+					var cp []*c14Msg
+					json.Unmarshal(raw, &cp)
+					cp[j].Extra = ev
+					n := clone()
+					n.Chunks[i] = c14Raw(cp)
+					out = append(out, n)
+				}
+				if len(ms[j].TCs) > 0 {
+					var cp []*c14Msg
+					json.Unmarshal(raw, &cp)
+					cp[j].TCs = []c14TC{}
+					n := clone()
+					n.Chunks[i] = c14Raw(cp)
 					out = append(out, n)
 				}
 			}
@@ -871,11 +912,13 @@ func runC14(ctx *vh.Ctx) error {
 	plan := []struct {
 		kind     string
 		quick, t int
-	}{{"msgs", 8000, 150000}, {"cmsgs", 2000, 40000}, {"maps", 4000, 80000}, {"strs", 400, 4000}, {"marr", 800, 15000}}
+		share    float64 // cumulative share of the time budget after which the kind stops
+	}{{"msgs", 8000, 150000, 0.45}, {"cmsgs", 2000, 40000, 0.60}, {"maps", 4000, 80000, 0.85}, {"strs", 400, 4000, 0.88}, {"marr", 800, 15000, 1.0}}
 	const batch = 250
 	for _, p := range plan {
 		n := ctx.N(p.quick, p.t)
-		for done := 0; done < n && ctx.TimeLeft(); done += batch {
+		deadline := ctx.Start.Add(time.Duration(float64(ctx.Budget) * p.share))
+		for done := 0; done < n && ctx.TimeLeft() && time.Now().Before(deadline); done += batch {
 			cases := make([]*c14Case, 0, batch)
 			asks := make([]any, 0, batch)
 			for i := 0; i < batch && done+i < n; i++ {
